@@ -194,7 +194,7 @@ fn finite_offset() -> f64 {
 fn next_datagram(cfg: &GpsdCfg, tv_sec: i64) -> Sent {
     let leap = [0, 1, 2, 3, -1, i32::MAX][weighted("gps.leap", &[6, 1, 1, 1, 1, 1])];
     let usec = choose("gps.usec", 1_000_000) as i64;
-    let mut valid = |off: f64| sample(tv_sec, usec, if off.is_finite() { off } else { 0.25 }, 0, leap, 0, MAGIC);
+    let valid = |off: f64| sample(tv_sec, usec, if off.is_finite() { off } else { 0.25 }, 0, leap, 0, MAGIC);
     let kind = weighted("gps.kind", &[10, 3, 2, 2, if cfg.nonfinite { 3 } else { 0 }, if cfg.damage { 3 } else { 0 }, 1, if cfg.errors { 1 } else { 0 }]);
     match kind {
         0 => Sent::Datagram(valid(finite_offset())),
@@ -443,8 +443,19 @@ pub fn run() {
                         }
                         check!("C40", "one-measurement-per-datagram", got.len() <= 1, "{}: {} measurements", detail(), got.len());
                     }
+                    Verdict::WrongSize if d.len() > SAMPLE_SIZE => {
+                        let (v40, off40) = classify(&d[..SAMPLE_SIZE]);
+                        check!(
+                            "C40",
+                            "measurement-from-oversize-datagram",
+                            got.is_empty(),
+                            "{} became a measurement although it is {} bytes long, not 40 (its first 40 bytes alone decode as {v40:?}, offset {off40:e})",
+                            detail(),
+                            d.len()
+                        );
+                    }
                     Verdict::WrongSize => {
-                        check!("C40", "measurement-from-wrong-size-datagram", got.is_empty(), "{} became a measurement although its size is not 40", detail());
+                        check!("C40", "measurement-from-short-datagram", got.is_empty(), "{} became a measurement although it is shorter than 40 bytes", detail());
                     }
                     Verdict::WrongMagic => {
                         check!("C40", "measurement-from-wrong-magic", got.is_empty(), "{} became a measurement although the magic number is wrong", detail());
